@@ -285,4 +285,373 @@ theorem seedTarget_bounds (so : Nat) : 1000000 ≤ seedTarget so ∧ seedTarget 
 theorem stepPermille_le (m : ClimbMode) : stepPermille m ≤ 60 := by
   cases m <;> simp [stepPermille]
 
+/-! ## Inductive invariant (every scalar) -/
+
+def Inv {F : Type} (s : St F) : Prop :=
+  100000 ≤ s.target ∧ s.target ≤ 200000000 ∧ (s.state = .bootstrap → s.target = 100000)
+
+/-- what every op other than `tick` leaves untouched -/
+def Keeps {F : Type} (s s' : St F) : Prop :=
+  s'.target = s.target ∧ s'.state = s.state ∧ s'.lossDegraded = s.lossDegraded ∧
+  s'.lossHighSince = s.lossHighSince ∧ s'.lossEwma = s.lossEwma ∧ s'.climbMode = s.climbMode
+
+section generic2
+variable {F : Type} [Scalar F]
+
+theorem keeps_updateRttMin (s : St F) (x : F) (now : Nat) : Keeps s (updateRttMin s x now) := by
+  simp only [updateRttMin, Keeps]; split <;> simp
+
+theorem keeps_recordRtt (s : St F) (x : F) (now : Nat) : Keeps s (recordRtt s x now) := by
+  simp only [recordRtt]
+  split
+  · simp [Keeps]
+  · split
+    · exact keeps_updateRttMin _ x now
+    · generalize hs1 : ({ s with rttEwma := _, rttVar := _ } : St F) = s1
+      have k := keeps_updateRttMin s1 x now
+      have e : Keeps s s1 := by subst hs1; simp [Keeps]
+      simp only [Keeps] at k e ⊢
+      obtain ⟨k1, k2, k3, k4, k5, k6⟩ := k
+      obtain ⟨e1, e2, e3, e4, e5, e6⟩ := e
+      exact ⟨k1.trans e1, k2.trans e2, k3.trans e3, k4.trans e4, k5.trans e5, k6.trans e6⟩
+
+omit [Scalar F] in
+theorem keeps_recordLoss (s : St F) (a l now : Nat) : Keeps s (recordLoss s a l now) := by
+  simp [Keeps, recordLoss, evictExpired]
+
+omit [Scalar F] in
+theorem keeps_observeTraffic (s : St F) (b : Nat) (n : Int) (now : Nat) :
+    Keeps s (observeTraffic s b n now) := by
+  simp only [observeTraffic, Keeps, recordLoss, evictExpired]
+  repeat' split
+  all_goals simp
+
+theorem inv_tick (s : St F) (obs now : Nat) : Inv (tick s obs now) := by
+  cases h : noRtt (evictExpired s now)
+  · obtain ⟨-, -, -, -, hne, ht⟩ := tick_run s obs now h
+    have := tickTarget_bounds (F := F) (tick s obs now).state s.state (tick s obs now).climbMode
+      (if s.state = .bootstrap then seedTarget (saneObserved (F := F) s.target obs) else s.target)
+      (saneObserved (F := F) s.target obs)
+    rw [← ht] at this
+    exact ⟨this.1, this.2, fun hb => absurd hb hne⟩
+  · obtain ⟨h1, h2, -⟩ := tick_boot s obs now h
+    exact ⟨by omega, by omega, fun _ => h2⟩
+
+theorem inv_apply (s : St F) (op : Op F) (h : Inv s) : Inv (apply s op) := by
+  cases op with
+  | tick o now => exact inv_tick s o now
+  | rtt x now =>
+    obtain ⟨a, b, -⟩ := keeps_recordRtt s x now
+    simp only [Inv, apply, a, b]; exact h
+  | traffic bt n now =>
+    obtain ⟨a, b, -⟩ := keeps_observeTraffic s bt n now
+    simp only [Inv, apply, a, b]; exact h
+  | loss sn l now =>
+    obtain ⟨a, b, -⟩ := keeps_recordLoss s sn l now
+    simp only [Inv, apply, a, b]; exact h
+
+theorem inv_foldl (ops : List (Op F)) (s : St F) (h : Inv s) : Inv (ops.foldl apply s) := by
+  induction ops generalizing s with
+  | nil => exact h
+  | cons op ops ih => exact ih _ (inv_apply s op h)
+
+theorem inv_run (ops : List (Op F)) : Inv (run ops) :=
+  inv_foldl ops _ (by simp [Inv, St.default])
+
+end generic2
+
+/-- One tick with an RTT estimate, exact arithmetic: what happens to the target, by resulting state. -/
+theorem tick_target_R (s : St Rat) (obs now : Nat) (hinv : Inv s)
+    (h : @noRtt Rat (ratScalar e fin infv) (@evictExpired Rat s now) = false) :
+    let s' := @tick Rat (ratScalar e fin infv) s obs now
+    let so := min obs (4 * max s.target 1000000)
+    let t := if s.state = .bootstrap then seedTarget so else s.target
+    let t' := s'.target
+    100000 ≤ t ∧ t ≤ 200000000 ∧ s'.state ≠ .bootstrap ∧
+    (s'.state = .climbing → t ≤ t' ∧ t' * 1000 ≤ t * 1060 ∧ (t < t' → t' ≤ 2 * so)) ∧
+    (s'.state = .holding → t' = t) ∧
+    (s'.state = .backingOff → t' ≤ t ∧ t * 850 / 1000 ≤ t' ∧ min so t ≤ t') ∧
+    (s'.state = .drain → (s.state = .drain → t' = t) ∧ (s.state ≠ .drain → t' = max (t * 750 / 1000) 100000)) := by
+  intro s' so t t'
+  obtain ⟨i1, i2, i3⟩ := hinv
+  obtain ⟨-, -, -, -, hne, ht⟩ := @tick_run Rat (ratScalar e fin infv) s obs now h
+  rw [saneObserved_R e fin infv s.target obs i2] at ht
+  have hb := seedTarget_bounds so
+  have ht1 : 100000 ≤ t ∧ t ≤ 200000000 := by
+    simp only [t]; split <;> omega
+  have ht : t' = @tickTarget Rat (ratScalar e fin infv) s'.state s.state s'.climbMode t so := ht
+  have hne : s'.state ≠ .bootstrap := hne
+  clear_value t' t s'
+  clear hb
+  clear_value so
+  refine ⟨ht1.1, ht1.2, hne, ?_, ?_, ?_, ?_⟩
+  · intro hs
+    rw [hs] at ht
+    have k := tickTarget_climb_R e fin infv s.state s'.climbMode t so ht1.1 ht1.2
+    have := stepPermille_le s'.climbMode
+    simp only at k
+    rw [ht]
+    refine ⟨k.1, ?_, k.2.2.2⟩
+    have := k.2.2.1
+    generalize stepPermille s'.climbMode = pm at *
+    have : t * (1000 + pm) ≤ t * 1060 := Nat.mul_le_mul_left _ (by omega)
+    omega
+  · intro hs
+    rw [hs] at ht
+    rw [ht]
+    exact tickTarget_same_R e fin infv .holding s.state _ t so (Or.inl rfl) ht1.1 ht1.2
+  · intro hs
+    rw [hs] at ht
+    rw [ht]
+    have k := tickTarget_backoff_R e fin infv s.state s'.climbMode t so ht1.1 ht1.2
+    exact ⟨k.1, k.2.2.1, k.2.2.2⟩
+  · intro hs
+    rw [hs] at ht
+    constructor
+    · intro hd
+      rw [ht]
+      exact tickTarget_same_R e fin infv .drain s.state _ t so (Or.inr (Or.inr (Or.inl ⟨rfl, hd⟩))) ht1.1 ht1.2
+    · intro hd
+      rw [ht]
+      exact tickTarget_drain_entry_R e fin infv s.state _ t so hd ht1.1 ht1.2
+
+theorem updateRttMin_ewma {F : Type} [Scalar F] (s : St F) (x : F) (now : Nat) :
+    (updateRttMin s x now).rttEwma = s.rttEwma ∧ (updateRttMin s x now).state = s.state := by
+  simp only [updateRttMin]; split <;> simp
+
+/-- RTT EWMA stays positive once positive (exact arithmetic). -/
+theorem recordRtt_ewma_R (s : St Rat) (x : Rat) (now : Nat) (h0 : 0 ≤ s.rttEwma) :
+    let s' := @recordRtt Rat (ratScalar e fin infv) s x now
+    0 ≤ s'.rttEwma ∧ (0 < s.rttEwma → 0 < s'.rttEwma) ∧
+    (@rttAccepted Rat (ratScalar e fin infv) x = true → 0 < s'.rttEwma) ∧
+    (@rttAccepted Rat (ratScalar e fin infv) x = false → s' = s) := by
+  intro s'
+  by_cases ha : @rttAccepted Rat (ratScalar e fin infv) x = true
+  · have hx : 0 < x := by
+      simp [rttAccepted, Scalar.le, Scalar.isFinite, zero, Scalar.ofNat] at ha
+      grind
+    have key : 0 < s'.rttEwma := by
+      simp only [s', recordRtt, ha]
+      simp only [Bool.not_true, Bool.false_eq_true, if_false]
+      split
+      · rw [(@updateRttMin_ewma Rat (ratScalar e fin infv) _ x now).1]; exact hx
+      · simp only []
+        rw [(@updateRttMin_ewma Rat (ratScalar e fin infv) _ x now).1]
+        simp only [Scalar.ofNat, Scalar.add, Scalar.mul, Scalar.div]
+        by_cases c1 : now - s.lastRttUpdate ≥ 1000
+        · simp only [c1, if_true]; push_cast; grind
+        · by_cases c2 : now - s.lastRttUpdate ≥ 500
+          · simp only [c1, c2, if_true, if_false]; push_cast; grind
+          · by_cases c3 : now - s.lastRttUpdate ≥ 250
+            · simp only [c1, c2, c3, if_true, if_false]; push_cast; grind
+            · simp only [c1, c2, c3, if_false]; push_cast; grind
+    exact ⟨by grind, fun _ => key, fun _ => key, fun h => by simp [ha] at h⟩
+  · have hs : s' = s := by simp [s', recordRtt, ha]
+    rw [hs]
+    exact ⟨h0, id, fun h => absurd h ha, fun _ => rfl⟩
+
+theorem noRtt_R (s : St Rat) :
+    @noRtt Rat (ratScalar e fin infv) s = false ↔ fin s.rttEwma = true ∧ s.rttEwma ≠ 0 := by
+  simp [noRtt, Scalar.isFinite, Scalar.beq, zero, Scalar.ofNat]
+  intro _
+  exact decide_eq_false_iff_not
+
+/-- exact-arithmetic invariant: the RTT EWMA is ≥ 0, and > 0 once the controller left Bootstrap -/
+def InvR (s : St Rat) : Prop := 0 ≤ s.rttEwma ∧ (s.state ≠ .bootstrap → 0 < s.rttEwma)
+
+theorem invR_apply (s : St Rat) (op : Op Rat) (h : InvR s) :
+    InvR (@apply Rat (ratScalar e fin infv) s op) := by
+  obtain ⟨h0, h1⟩ := h
+  cases op with
+  | rtt x now =>
+    obtain ⟨a, b, -, -⟩ := recordRtt_ewma_R e fin infv s x now h0
+    obtain ⟨-, ks, -⟩ := @keeps_recordRtt Rat (ratScalar e fin infv) s x now
+    exact ⟨a, fun hs => b (h1 (by rw [← ks]; exact hs))⟩
+  | traffic bt n now =>
+    obtain ⟨-, ks, -⟩ := keeps_observeTraffic s bt n now
+    have er : (observeTraffic s bt n now).rttEwma = s.rttEwma := by
+      simp only [observeTraffic, recordLoss, evictExpired]; repeat' split
+      all_goals rfl
+    simp only [InvR, apply, er, ks]; exact ⟨h0, h1⟩
+  | loss sn l now =>
+    exact ⟨h0, h1⟩
+  | tick o now =>
+    cases hn : @noRtt Rat (ratScalar e fin infv) (evictExpired s now)
+    · obtain ⟨-, -, -, er, -, -⟩ := @tick_run Rat (ratScalar e fin infv) s o now hn
+      have := (noRtt_R e fin infv (evictExpired s now)).1 hn
+      have e0 : (evictExpired s now).rttEwma = s.rttEwma := rfl
+      rw [e0] at this
+      simp only [InvR, apply, er]
+      exact ⟨h0, fun _ => by grind⟩
+    · obtain ⟨hs, -, -, -, -, er⟩ := @tick_boot Rat (ratScalar e fin infv) s o now hn
+      simp only [InvR, apply, er, hs]
+      exact ⟨h0, fun h => absurd rfl h⟩
+
+theorem invR_foldl (ops : List (Op Rat)) (s : St Rat) (h : InvR s) :
+    InvR (ops.foldl (@apply Rat (ratScalar e fin infv)) s) := by
+  induction ops generalizing s with
+  | nil => exact h
+  | cons op ops ih => exact ih _ (invR_apply e fin infv s op h)
+
+theorem invR_run (ops : List (Op Rat)) : InvR (@run Rat (ratScalar e fin infv) ops) :=
+  invR_foldl e fin infv ops _ (by simp [InvR, St.default, zero, Scalar.ofNat])
+
+/-- Outside Bootstrap (exact arithmetic, positive numbers finite) every tick finds an RTT estimate. -/
+theorem noRtt_false_of_left (hfin : ∀ x : Rat, 0 < x → fin x = true) (s : St Rat) (h : InvR s)
+    (hs : s.state ≠ .bootstrap) (now : Nat) :
+    @noRtt Rat (ratScalar e fin infv) (evictExpired s now) = false := by
+  rw [noRtt_R]
+  have := h.2 hs
+  have e0 : (evictExpired s now).rttEwma = s.rttEwma := rfl
+  rw [e0]
+  exact ⟨hfin _ this, by grind⟩
+
+/-! ## ghost trace for the loss-degraded latch -/
+section latch
+variable {F : Type} [Scalar F]
+
+/-- the model's comparison `ewma > 0.55` (`LOSS_DEGRADE_ENTER`) -/
+def High (x : F) : Prop := Scalar.lt (cEnter : F) x = true
+/-- the model's comparison `ewma < 0.25` (`LOSS_DEGRADE_CLEAR`) -/
+def Low (x : F) : Prop := Scalar.lt x (cClear : F) = true
+
+/-- Ghost: the trace of all loss-EWMA evaluations, newest first: `(now, ewma after the tick)` for
+every tick that got past the Bootstrap test (those are exactly the calls of `update_loss_ewma`). -/
+def traceStep (s : St F) (op : Op F) (tr : List (Nat × F)) : List (Nat × F) :=
+  match op with
+  | .tick o now => if noRtt (evictExpired s now) then tr else (now, (tick s o now).lossEwma) :: tr
+  | _ => tr
+
+def runG : List (Op F) → St F × List (Nat × F) → St F × List (Nat × F)
+  | [], p => p
+  | op :: ops, (s, tr) => runG ops (apply s op, traceStep s op tr)
+
+theorem runG_fst (ops : List (Op F)) (s : St F) (tr : List (Nat × F)) :
+    (runG ops (s, tr)).1 = ops.foldl apply s := by
+  induction ops generalizing s tr with
+  | nil => rfl
+  | cons op ops ih => simp only [runG, List.foldl_cons]; exact ih _ _
+
+/-- ghost invariant: while `loss_high_since ≠ 0`, the newest entries of the trace form a non-empty
+run of evaluations that all compared `> 0.55`, the oldest of which is stamped `loss_high_since`. -/
+def LatchInv (s : St F) (tr : List (Nat × F)) : Prop :=
+  s.lossHighSince ≠ 0 →
+    ∃ hrun rest first, tr = hrun ++ first :: rest ∧ first.1 = s.lossHighSince ∧ High first.2 ∧
+      ∀ p ∈ hrun, High p.2
+
+theorem latchInv_step (s : St F) (op : Op F) (tr : List (Nat × F)) (h : LatchInv s tr) :
+    LatchInv (apply s op) (traceStep s op tr) := by
+  cases op with
+  | rtt x now =>
+    have k := (keeps_recordRtt s x now).2.2.2.1
+    intro hne; simp only [apply, k] at hne ⊢; exact h hne
+  | traffic bt n now =>
+    have k := (keeps_observeTraffic s bt n now).2.2.2.1
+    intro hne; simp only [apply, k] at hne ⊢; exact h hne
+  | loss sn l now => exact h
+  | tick o now =>
+    cases hn : noRtt (evictExpired s now)
+    · obtain ⟨-, hh, he, -, -, -⟩ := tick_run s o now hn
+      obtain ⟨k1, -, -, -, khi, klo⟩ := updateLossEwma_spec (evictExpired s now) (lossPermille (evictExpired s now)) now
+      have e0 : (evictExpired s now).lossHighSince = s.lossHighSince := rfl
+      intro hne
+      simp only [apply, traceStep, hn, Bool.false_eq_true, if_false] at hne ⊢
+      rw [hh] at hne ⊢
+      rw [he, k1]
+      cases hc : Scalar.lt (cEnter : F) (nextLossEwma (evictExpired s now) (lossPermille (evictExpired s now)) now)
+      · exact absurd (klo hc).1 hne
+      · obtain ⟨a, b⟩ := khi hc
+        rw [e0] at a b
+        by_cases hz : s.lossHighSince = 0
+        · refine ⟨[], tr, (now, _), rfl, ?_, hc, by simp⟩
+          exact ((a hz).1).symm
+        · obtain ⟨hrun, rest, first, e1, e2, e3, e4⟩ := h hz
+          refine ⟨(now, _) :: hrun, rest, first, by rw [e1]; rfl, ?_, e3, ?_⟩
+          · rw [e2]; exact ((b hz).1).symm
+          · intro p hp
+            rcases List.mem_cons.1 hp with hp | hp
+            · rw [hp]; exact hc
+            · exact e4 p hp
+    · obtain ⟨-, -, -, hh, -, -⟩ := tick_boot s o now hn
+      intro hne
+      simp only [apply, traceStep, hn, if_true] at hne ⊢
+      rw [hh] at hne
+      rw [hh]; exact h hne
+
+theorem latchInv_runG (ops : List (Op F)) (s : St F) (tr : List (Nat × F)) (h : LatchInv s tr) :
+    LatchInv (runG ops (s, tr)).1 (runG ops (s, tr)).2 := by
+  induction ops generalizing s tr with
+  | nil => exact h
+  | cons op ops ih => exact ih _ _ (latchInv_step s op tr h)
+
+end latch
+
+/-! ## controller map -/
+section gc
+variable {F : Type} [Scalar F]
+
+omit [Scalar F] in
+theorem get_set_same (m : Ctl F) (id : Nat) (s : St F) : (m.set id s).get id = some s := by
+  induction m with
+  | nil => simp [Ctl.set, Ctl.get]
+  | cons kv rest ih =>
+    obtain ⟨k, v⟩ := kv
+    simp only [Ctl.set]
+    split
+    · rename_i h; simp [Ctl.get, List.find?, h]
+    · rename_i h; simp only [Ctl.get, List.find?, h] at ih ⊢; exact ih
+
+omit [Scalar F] in
+theorem get_set_other (m : Ctl F) (id id' : Nat) (s : St F) (hne : id' ≠ id) :
+    (m.set id s).get id' = m.get id' := by
+  induction m with
+  | nil =>
+    have : (id == id') = false := by simp; exact fun h => hne h.symm
+    simp [Ctl.set, Ctl.get, List.find?, this]
+  | cons kv rest ih =>
+    obtain ⟨k, v⟩ := kv
+    simp only [Ctl.set]
+    split
+    · rename_i h
+      have hk : k = id := by simpa using h
+      have : (k == id') = false := by simp [hk]; exact fun h => hne h.symm
+      simp [Ctl.get, List.find?, this]
+    · cases hk : (k == id')
+      · simp only [Ctl.get, List.find?, hk] at ih ⊢; exact ih
+      · simp [Ctl.get, List.find?, hk]
+
+omit [Scalar F] in
+theorem get_filter (m : Ctl F) (f : Nat → Bool) (id : Nat) :
+    Ctl.get (m.filter fun e => f e.1) id = if f id then m.get id else none := by
+  induction m with
+  | nil => simp [Ctl.get]
+  | cons kv rest ih =>
+    obtain ⟨k, v⟩ := kv
+    cases hk : (k == id)
+    · cases hf : f k
+      · simp only [List.filter, hf]; simp only [Ctl.get, List.find?, hk] at ih ⊢; exact ih
+      · simp only [List.filter, hf]; simp only [Ctl.get, List.find?, hk] at ih ⊢; exact ih
+    · have e : k = id := by simpa using hk
+      subst e
+      cases hf : f k
+      · simp only [List.filter, hf]
+        simp only [hf] at ih; simp [ih]
+      · simp [List.filter, hf, Ctl.get, List.find?]
+
+theorem tickLoop_get_other (m : Ctl F) (now : Nat) (cs : List (ConnIn F)) (id : Nat)
+    (h : ∀ c ∈ cs, c.id ≠ id) : (tickLoop m now cs).get id = m.get id := by
+  induction cs generalizing m with
+  | nil => rfl
+  | cons c cs ih =>
+    simp only [tickLoop]
+    rw [ih _ (fun c' hc' => h c' (List.mem_cons_of_mem _ hc'))]
+    exact get_set_other _ _ _ _ (fun e => h c List.mem_cons_self e.symm)
+
+theorem tickLoop_append (now : Nat) (xs ys : List (ConnIn F)) (m : Ctl F) :
+    tickLoop m now (xs ++ ys) = tickLoop (tickLoop m now xs) now ys := by
+  induction xs generalizing m with
+  | nil => rfl
+  | cons x xs ih => simp only [List.cons_append, tickLoop]; exact ih _
+end gc
+
 end Srtla.LinkCc
